@@ -301,6 +301,9 @@ func frameCheck(e *Env, sum bool) {
 	if sum && e.Only == "" {
 		specialChecksumValues(e)
 	}
+	if e.Only == "" {
+		callerSuppliedBodies(e, sum)
+	}
 	if e.Thorough {
 		bigFrames(e, sum)
 	}
@@ -480,4 +483,101 @@ func bigFrames(e *Env, sum bool) {
 		big++
 	}
 	r.Set("frames_larger_than_8MiB", big)
+}
+
+// plainBody is a caller-supplied body (codec.BinaryCodec is a public interface) that writes N arbitrary bytes.
+type plainBody struct{ N int }
+
+func (b *plainBody) Encode(buf *bytes.Buffer) error {
+	for i := 0; i < b.N; i++ {
+		buf.WriteByte(byte(0xA0 + i%7))
+	}
+	return nil
+}
+func (b *plainBody) Decode(*bytes.Buffer) error { return nil }
+
+// callerSuppliedBodies: "whatever the body".  Every self-measuring frame type carries (i) a body type of the
+// caller's own that writes N bytes, (ii) one that writes N bytes and then REFUSES.  For (i) the usual invariants
+// must hold.  For (ii) the frame encode may fail - but if it claims success (nil), what it appended is presented
+// as a valid frame and must satisfy the same invariants (length word == bytes that follow; checksum over them).
+func callerSuppliedBodies(e *Env, sum bool) {
+	r := e.R
+	prop := r.Prop
+	obs := map[string]int{}
+	for _, t := range e.Types() {
+		fi := frameOf(t)
+		if fi == nil || fi.union == "" || (sum && fi.sumField == "") {
+			continue
+		}
+		rng := gen.NewRng(e.Seed, prop, "caller-bodies", t.QName)
+		for h := 0; h < nHist; h++ {
+			for _, n := range []int{0, 1, 7, 300} {
+				for _, refuse := range []bool{false, true} {
+					frame := e.C.New[t.QName]()
+					fv := reflect.ValueOf(frame).Elem()
+					var body any = &plainBody{N: n}
+					if refuse {
+						body = &failingBody{N: n}
+					}
+					fv.FieldByName(fi.union).Set(reflect.ValueOf(body))
+					gen.SetScalarBits(fv.FieldByName(fi.lenField), fi.lenKind, rng.U64())
+					if fi.sumField != "" {
+						gen.SetScalarBits(fv.FieldByName(fi.sumField), fi.sumKind, rng.U64())
+					}
+					buf, _ := mkHistory(h, rng, nil, fi.hdr)
+					pre := append([]byte(nil), buf.Bytes()...)
+					err, p := LibEncode(frame, buf)
+					r.Evals(1)
+					det := map[string]any{"type": t.QName, "history": histNames[h], "body": fmt.Sprintf("%T{N:%d}", body, n), "prior_unread_bytes": len(pre)}
+					if p != nil {
+						continue // C17's business
+					}
+					if err != nil {
+						if !refuse {
+							det["error"] = err.Error()
+							r.Violate(prop+"/encode-error-with-caller-supplied-body/"+t.QName, prop+"/encode-error/"+t.QName, det)
+						} else {
+							obs["refusing-body:frame-encode-failed(as it may)"]++
+						}
+						continue
+					}
+					after := buf.Bytes()
+					if len(after) < len(pre)+fi.hdr+fi.trailer() {
+						det["appended"] = val.Hex(after[min(len(pre), len(after)):], 64)
+						r.Violate(prop+"/short-frame/"+t.QName, prop+"/short-frame/"+t.QName, det)
+						continue
+					}
+					a := after[len(pre):]
+					det["appended"] = val.Hex(a, 64)
+					bodyLen := len(a) - fi.hdr - fi.trailer()
+					if refuse {
+						obs["refusing-body:frame-encode-claimed-success"]++
+						det["note"] = "the body's Encode returned an error, the frame's Encode returned nil: what it appended is thereby presented as a valid frame"
+					} else {
+						obs["plain-caller-body-frames"]++
+					}
+					if !sum {
+						tok, _ := getIntAt(a, fi.lenOff, 4, t.LE)
+						obj := fieldBits(frame, fi.lenField)
+						if tok != uint64(bodyLen) || obj != uint64(bodyLen) || (!refuse && bodyLen != n) {
+							det["length_token_on_wire"], det["body_bytes_emitted"], det["object_length_field_after_encode"] = tok, bodyLen, obj
+							r.Violate(prop+"/length-with-caller-supplied-body/"+t.QName, prop+"/length/"+t.QName, det)
+						}
+						continue
+					}
+					w := fi.trailer()
+					tok, _ := getIntAt(a, len(a)-w, w, t.LE)
+					want, _ := ref.Checksum(fi.alg, a[:len(a)-w])
+					if servicesAbsent {
+						continue
+					}
+					if obj := fieldBits(frame, fi.sumField); tok != want || obj != want {
+						det["trailer_on_wire"], det["object_checksum_after_encode"], det["expected"] = fmt.Sprintf("%#x", tok), fmt.Sprintf("%#x", obj), fmt.Sprintf("%#x", want)
+						r.Violate(prop+"/checksum-with-caller-supplied-body/"+t.QName, prop+"/checksum/"+t.QName, det)
+					}
+				}
+			}
+		}
+	}
+	r.Set("caller_supplied_bodies", obs)
 }
